@@ -269,3 +269,8 @@ CORPUS += [
             used_cap += d''', "C06.e"),
     V("C06", "cvrptw-checker-time-reset-dropped", R + "cvrptw/env.py", "            curr_time[curr_node == 0] = 0.0  # reset time for depot\n", "", "C06.e"),
 ]
+
+CORPUS += [
+    V("C04", "mtvrp-checker-limit-unsqueezed-broadcast", R + "mtvrp/env.py", 'curr_length <= td["distance_limit"].squeeze(-1)', 'curr_length <= td["distance_limit"]', "C04.a"),
+    V("C04", "eq-mtvrp-checker-limit-indexed", R + "mtvrp/env.py", 'curr_length <= td["distance_limit"].squeeze(-1)', 'curr_length <= td["distance_limit"][:, 0]', None),
+]
